@@ -109,7 +109,21 @@ def one_definition(ctx, facts, cfg):
         vk = '%s::validate' % rate
         rec = facts.instances.get(vk)
         if rec is not None:
-            calls = [c.get('key') for c in rec['calls'].values() if c.get('local') and (c.get('trait') or '').startswith('rate::Rate')]
+            def rate_calls(r_, depth=0):
+                out_ = []
+                for c in r_['calls'].values():
+                    if not c.get('local'):
+                        continue
+                    if (c.get('trait') or '').startswith('rate::Rate'):
+                        out_.append(c.get('key'))
+                    elif depth < 2:
+                        # a private helper instantiated for this rate (`check_supported::<E, HighRate<E>>`): what IT consults
+                        g_ = facts.fns.get(c.get('path'))
+                        r2 = facts.instances.get(c.get('key') or '')
+                        if g_ is not None and r2 is not None and not g_.reachable and not g_.impl_trait and not g_.in_trait:
+                            out_ += rate_calls(r2, depth + 1)
+                return out_
+            calls = rate_calls(rec)
             if calls == ['%s::supports' % rate]:
                 ctx.ok(R, '%s@%s' % (vk, cfg), {'uses': '%s::supports' % rate})
             else:
@@ -157,6 +171,12 @@ def validate_table(ctx, facts, cfg):
     fn = ctx.anchor(facts, 'rate::Rate::validate', R)
     if fn is None:
         return
+    # checks written as `helper(..)?;` statements on private helpers are read in place
+    h2 = core.inline_unit_tries(fn.hir, facts)
+    if h2 != fn.hir:
+        import copy as _copy
+        fn = _copy.copy(fn)
+        fn.hir = h2
     tails = core.fn_exits(fn)
     o, r, sb = ('local', 'original_count'), ('local', 'recovery_count'), ('local', 'shard_bytes')
     Z = core.norm_bin('Eq', sb, ('const', 0))
@@ -253,7 +273,9 @@ def constructors(ctx, facts, cfg):
                 fs = S.fail_sources(key)
                 args3 = (('param', 'original_count'), ('param', 'recovery_count'), ('param', 'shard_bytes'))
                 if K != 'Default':
-                    want = {('pred', S.canon_pred('%s::validate' % codec), args3)}
+                    want0 = {('pred', S.canon_pred('%s::validate' % codec), args3)}
+                    want = expand_leaves(S, want0)
+                    fs = expand_leaves(S, fs)
                     if fs == want:
                         # Ok exit dominated by the Ok edge of a call chain containing that validate: the `?`/tail structure guarantees it
                         body = fn.body
@@ -262,7 +284,7 @@ def constructors(ctx, facts, cfg):
                         tss = [ts for ts in core.try_sites(body) if ts['ok_bb'] is not None]
                         dom = (not okb) or any(all(body.edge_dominates((ts['switch_bb'], ts['ok_bb']), ob) for ob in okb) for ts in tss)
                         tail = [b for (b, k, d) in oks if k == 'tailcall']
-                        if (dom or tail) and must_pass(facts, S, key, S.canon_pred('%s::validate' % codec)):
+                        if (dom or tail) and all(must_pass(facts, S, key, lf[1]) for lf in (want0 if want == want0 else want)):
                             ctx.ok(R, '%s@%s' % (key, cfg), {'fails_exactly_through': core.short(codec) + '::validate(original_count, recovery_count, shard_bytes)'})
                         elif dom or tail:
                             ctx.violation(R, 'ok-without-validate:%s%s:%s' % (K, side, meth),
@@ -284,6 +306,7 @@ def constructors(ctx, facts, cfg):
                             allowed.add(('pred', S.canon_pred('<%s::%sRate%s<E> as rate::Rate%s<E>>::validate' % (mod2, K2, side2, side2)), args3))
                     if dec:
                         allowed.add(('pred', dec, args3[:2]))
+                    allowed |= expand_leaves(S, allowed)
                     bad = sorted(fs - allowed, key=repr)
                     if bad:
                         ctx.violation(R, 'fail-sources:Default%s:%s' % (side, meth), '%s can fail through %s, which is neither the rate decision nor a dedicated validate on its own arguments'
@@ -300,6 +323,25 @@ def constructors(ctx, facts, cfg):
             ctx.ok(R, 'pure:%s@%s' % (k, cfg), None, nontrivial=False)
         else:
             ctx.violation(R, 'impure-predicate:%s' % K, '%s is not a pure function of its arguments (%s)' % (k, getattr(S, '_pure_why', {}).get(k)), fn=k, cfg=cfg)
+
+
+def expand_leaves(S, leaves, depth=0):
+    """a pure validator that constructs no error of its own fails exactly when the predicates it consults fail
+    (`validate(o, r, s)` = `check_supported(o, r)?; checked_len(s)?; Ok(())`): such leaves are replaced by what they consult"""
+    out = set()
+    for lf in leaves:
+        if lf[0] != 'pred' or depth > 3:
+            out.add(lf)
+            continue
+        inner = S.fail_sources(lf[1])
+        inst = S.inst(lf[1])
+        if inst.fn is not None and S.pure(lf[1]) and inner and all(x[0] == 'pred' for x in inner):
+            pn = inst.fn.param_names()
+            sub = {n: lf[2][i] for i, n in enumerate(pn) if n is not None and i < len(lf[2])}
+            out |= expand_leaves(S, {('pred', x[1], tuple(summ.subst(a, sub) for a in x[2])) for x in inner}, depth + 1)
+        else:
+            out.add(lf)
+    return out
 
 
 def must_pass(facts, S, key, pred, depth=0):
